@@ -57,6 +57,8 @@ class T(Model):
             return Builtin("atoms", lambda e, *a: STup([], None, True))
         if name == "shape" and hasattr(self, "shape"):
             return self.shape
+        if name == "T":
+            return T("attr:T", self)
         raise Unsupported(f"term.{name}")
 
     def m_binop(self, eng, op, other, reflected):
